@@ -373,7 +373,7 @@ pub fn named() -> SweepProfile {
 /// v-mode classes with strings, forwards and inside lookbehind (string pieces, longest-first).
 pub fn vset() -> SweepProfile {
     let q = |strs: &[&str]| Node::VClass(VClass { negated: false, op: VOp::Union, operands: vec![VOperand::QStrings(strs.iter().map(|s| s.chars().map(|c| c as u32).collect()).collect())] });
-    let unary = vec![Unary::Group, Unary::Look(true, false), Unary::Look(true, true), Unary::Look(false, false), Unary::Quant(0, Some(1), true), Unary::Quant(0, None, true), Unary::Quant(1, None, false)];
+    let unary = vec![Unary::Group, Unary::Look(true, false), Unary::Look(true, true), Unary::Look(false, false), Unary::Quant(0, Some(1), true), Unary::Quant(0, None, true), Unary::Quant(1, None, false), Unary::Quant(2, Some(2), true), Unary::Quant(2, Some(3), true), Unary::Quant(1, None, true)];
     SweepProfile {
         profile: Profile {
             name: "P-vset",
